@@ -368,7 +368,47 @@ func (s *SQLiteStore) Close() error {
 // - The iteration completes naturally
 // - The consumer breaks out of the range loop
 // - The context is cancelled
+//
+// An in-memory database is the exception: its connections share one cache,
+// where an open cursor holds a table lock, so a consumer that appends to the
+// store from inside the loop (a replay callback that publishes) would wait
+// for its own cursor forever. Such a store reads the rows first and yields
+// them afterwards.
 func (s *SQLiteStore) ReadStream(ctx context.Context, from eventbus.Offset) iter.Seq2[*eventbus.StoredEvent, error] {
+	if s.cfg.path != ":memory:" {
+		return s.readStream(ctx, from)
+	}
+
+	return func(yield func(*eventbus.StoredEvent, error) bool) {
+		type item struct {
+			event *eventbus.StoredEvent
+			err   error
+		}
+		var items []item
+		for event, err := range s.readStream(ctx, from) {
+			items = append(items, item{event, err})
+		}
+
+		for _, it := range items {
+			if it.err == nil {
+				// Check the context before each yield, as the cursor-based
+				// path does
+				select {
+				case <-ctx.Done():
+					yield(nil, ctx.Err())
+					return
+				default:
+				}
+			}
+			if !yield(it.event, it.err) {
+				return
+			}
+		}
+	}
+}
+
+// readStream iterates over the rows after from with an open cursor.
+func (s *SQLiteStore) readStream(ctx context.Context, from eventbus.Offset) iter.Seq2[*eventbus.StoredEvent, error] {
 	return func(yield func(*eventbus.StoredEvent, error) bool) {
 		start := time.Now()
 		var eventCount int
